@@ -1,7 +1,101 @@
-// Package c19 interprets the C19 op language against the real packages (stub).
+// Package c19 holds the C19 translator (extract.go) and the line interpreter used by `corr C19`:
+//
+//	conf <key> <blocked|admitted> <ok|err|panic>   =>   the IR text of entry point <key> as extracted
+//	                                                    *now* from $VERIF_REPO (or `gone`)
+//	trace <key> <blocked|admitted> <ok|err|panic>  =>   the events observed by the adapter's dynamic harness
+//
+// The Lean driver answers the same op from the table written at the last regeneration
+// (lean/Sentinel/Gen/adapters.ir), and its oracle mode judges the IR with `conforms`.
 package c19
 
-import "verifharness/internal/vh"
+import (
+	"os"
+	"os/exec"
+	"path/filepath"
+	"strings"
+
+	"verifharness/internal/vh"
+)
+
+type Interp struct {
+	progs map[string]string
+	dyn   map[string][]string
+	err   error
+}
+
+// Repo is the tree the adapters are read from.
+func Repo() string {
+	if r := os.Getenv("VERIF_REPO"); r != "" {
+		return r
+	}
+	return "/repo"
+}
 
 // New returns the interpreter for C19.
-func New() vh.Interp { return nil }
+func New() vh.Interp { return &Interp{} }
+
+func (it *Interp) Reset() {
+	if it.progs != nil || it.err != nil {
+		return
+	}
+	ps, err := Extract(Repo())
+	if err != nil {
+		it.err = err
+		return
+	}
+	it.progs = map[string]string{}
+	for _, p := range ps {
+		it.progs[p.Key] = Text(p.Body)
+	}
+}
+
+func (it *Interp) Step(toks []string, op string) string {
+	if it.err != nil {
+		return "extract-error"
+	}
+	switch toks[0] {
+	case "conf":
+		if len(toks) != 4 {
+			return "bad-op"
+		}
+		if t, ok := it.progs[toks[1]]; ok {
+			return t
+		}
+		return "gone"
+	case "trace":
+		if len(toks) != 4 {
+			return "bad-op"
+		}
+		return it.dynTrace(toks)
+	}
+	return "bad-op"
+}
+
+// dynTrace answers `trace <key> <b> <h>` by running the dynamic harness of the adapter (built by checks/C19.py
+// into $C19_DYN_DIR/<adapter>/harness) and returning the first observed trace for that entry point and scenario.
+func (it *Interp) dynTrace(toks []string) string {
+	dir := os.Getenv("C19_DYN_DIR")
+	i := strings.Index(toks[1], "/")
+	if dir == "" || i < 0 {
+		return "unavailable"
+	}
+	ad := toks[1][:i]
+	if it.dyn == nil {
+		it.dyn = map[string][]string{}
+	}
+	if _, ok := it.dyn[ad]; !ok {
+		out, err := exec.Command(filepath.Join(dir, ad, "harness"), "0").Output()
+		if err != nil {
+			it.dyn[ad] = []string{}
+		} else {
+			it.dyn[ad] = strings.Split(string(out), "\n")
+		}
+	}
+	want := strings.Join(toks, " ") + " => "
+	for _, l := range it.dyn[ad] {
+		if strings.HasPrefix(l, want) {
+			return strings.TrimSpace(l[len(want):])
+		}
+	}
+	return "unavailable"
+}
